@@ -23,6 +23,14 @@ var regOnce sync.Once
 // RepoRoot is where the GopherJS sources under test live.
 var RepoRoot = "/repo"
 
+// Repo returns the GopherJS tree under test (VERIF_REPO, default /repo).
+func Repo() string {
+	if r := os.Getenv("VERIF_REPO"); r != "" {
+		return r
+	}
+	return RepoRoot
+}
+
 func register() {
 	regOnce.Do(func() {
 		if r := os.Getenv("VERIF_REPO"); r != "" {
